@@ -46,79 +46,107 @@ def exec_case(case, real=False):
         if case.get("filter"):
             F = gens.filter_fn(case["filter"])
             kw["tile_filter"] = lambda t: F(tuple(t.pos))
-        if k == 1 or real:
-            with toasty_call("cascade", what):
-                bld.cascade(parallel=k, **kw)
-        else:
-            w = SimWorld(case.get("sched"))
-            w, res = scen.run_sim(lambda: bld.cascade(parallel=k, **kw), None, world=w)
-            if res["status"] == "hang":
-                raise Violation("cascade", f"{what}: parallel cascade never returns: {res['hang']}")
-            if res["status"] == "raised":
-                if isinstance(res["exc"], SimUnsupported):
-                    raise res["exc"]
-                raise Violation("cascade", f"{what}: parallel cascade raised {type(res['exc']).__name__}: {res['exc']}; {w.stderr.getvalue()[-500:]}")
-            if res["status"] != "returned":
-                raise HarnessError("simulation inconclusive")
-        with toasty_call("wtml", what):
-            bld.write_index_rel_wtml()
-        # true ranges
-        def true_range(p):
-            vals = [a[np.isfinite(a)] for q, a in leaves.items() if rp.is_desc_or_self(q, p)]
-            vals = [v for v in vals if v.size]
-            if not vals:
-                return None
-            return float(min(v.min() for v in vals)), float(max(v.max() for v in vals))
+        revised = None
+        for rnd in range(2 if (case.get("revise") and case["mode"] in ("F32", "F64")) else 1):
+            if rnd == 1:
+                # the pyramid is cascaded AGAIN after one leaf was revised so that every 2x2 block keeps its mean (the parents' pixels
+                # do not change) while its extremes move outwards: the recorded ranges have to follow
+                from toasty.image import Image
 
-        checked = 0
-        root_hdr = None
-        for n in range(depth + 1):
-            for y in range(2**n):
-                for x in range(2**n):
-                    p = (n, x, y)
-                    path = pio.tile_path(Pos(*p), makedirs=False)
-                    tr = true_range(p)
-                    if not os.path.exists(path):
-                        if tr is not None:
-                            raise Violation("tile-missing", f"{what}: tile {p} with defined leaf data beneath it does not exist")
-                        continue
-                    with fits.open(path) as hl:
-                        hdr = hl[0].header
-                        data = np.array(hl[0].data)
-                    if tr is None:
-                        raise Violation("tile-unexpected", f"{what}: tile {p} exists without any defined leaf data beneath it")
-                    for key, exp in (("DATAMIN", tr[0]), ("DATAMAX", tr[1])):
-                        if key not in hdr:
-                            raise Violation("range", f"{what}: tile {p} has no {key}")
-                        got = float(hdr[key])
-                        if not abs(got - exp) <= 1.2e-7 * max(abs(exp), abs(got)) + 1e-30:
-                            pix = (float(np.nanmin(data)), float(np.nanmax(data)))
-                            raise Violation(
-                                "range",
-                                f"{what}: tile {p} records {key} = {got!r}; the leaves beneath it have {'min' if key == 'DATAMIN' else 'max'} {exp!r} (the tile's own pixels span {pix})",
-                            )
-                    checked += 1
-                    if n == 0:
-                        root_hdr = (float(hdr["DATAMIN"]), float(hdr["DATAMAX"]), float(np.nanmin(data)), float(np.nanmax(data)))
-        if root_hdr is None:
-            raise Violation("tile-missing", f"{what}: no root tile")
-        # WTML
-        tree = ET.parse(os.path.join(d, "index_rel.wtml"))
-        isets = [e for e in tree.iter() if e.tag == "ImageSet"]
-        if len(isets) != 1:
-            raise Violation("wtml", f"{what}: {len(isets)} ImageSet elements in index_rel.wtml")
-        for key, exp, attr in (("DataMin", root_hdr[0], "data_min"), ("DataMax", root_hdr[1], "data_max")):
-            v = isets[0].attrib.get(key, "0")  # the WTML format omits zero-valued attributes; absent means 0
-            if not abs(float(v) - exp) <= 1.2e-7 * max(abs(exp), 1e-30) + 1e-30:
-                raise Violation("wtml-range", f"{what}: index_rel.wtml has {key}={v!r}, the root tile records {exp!r} (true range {true_range((0, 0, 0))})")
-            bv = getattr(bld.imgset, attr)
-            if bv is None or not abs(float(bv) - exp) <= 1.2e-7 * max(abs(exp), 1e-30) + 1e-30:
-                raise Violation("wtml-range", f"{what}: Builder.imgset.{attr} = {bv!r}, the root tile records {exp!r}")
+                cands = sorted(q for q, a in leaves.items() if np.isfinite(a).any() and os.path.exists(pio.tile_path(Pos(*q), makedirs=False)))
+                if not cands:
+                    break
+                q = cands[case["revise"] % len(cands)]
+                a = leaves[q].copy()
+                fin = np.isfinite(a)
+                both = fin[:, 0::2] & fin[:, 1::2]
+                if not both.any():
+                    break
+                delta = float(2 * (np.nanmax(np.abs(a[fin])) + 1) // 1 + 3)
+                left, right = a[:, 0::2], a[:, 1::2]
+                left[both] -= delta
+                right[both] += delta
+                leaves[q] = a
+                revised = q
+                with toasty_call("populate", "re-writing a revised leaf"):
+                    pio.write_image(Pos(*q), Image.from_array(np.ascontiguousarray(cc.to_stored(a, "fits"))))
+                k = 1
+                what = what + f" (cascaded again after leaf {q} was revised, block means unchanged)"
+            if k == 1 or real:
+                with toasty_call("cascade", what):
+                    bld.cascade(parallel=k, **kw)
+            else:
+                w = SimWorld(case.get("sched"))
+                w, res = scen.run_sim(lambda: bld.cascade(parallel=k, **kw), None, world=w)
+                if res["status"] == "hang":
+                    raise Violation("cascade", f"{what}: parallel cascade never returns: {res['hang']}")
+                if res["status"] == "raised":
+                    if isinstance(res["exc"], SimUnsupported):
+                        raise res["exc"]
+                    raise Violation("cascade", f"{what}: parallel cascade raised {type(res['exc']).__name__}: {res['exc']}; {w.stderr.getvalue()[-500:]}")
+                if res["status"] != "returned":
+                    raise HarnessError("simulation inconclusive")
+            with toasty_call("wtml", what):
+                bld.write_index_rel_wtml()
+            # true ranges
+            def true_range(p):
+                vals = [a[np.isfinite(a)] for q, a in leaves.items() if rp.is_desc_or_self(q, p)]
+                vals = [v for v in vals if v.size]
+                if not vals:
+                    return None
+                return float(min(v.min() for v in vals)), float(max(v.max() for v in vals))
+
+            checked = 0
+            root_hdr = None
+            for n in range(depth + 1):
+                for y in range(2**n):
+                    for x in range(2**n):
+                        p = (n, x, y)
+                        path = pio.tile_path(Pos(*p), makedirs=False)
+                        tr = true_range(p)
+                        if not os.path.exists(path):
+                            if tr is not None:
+                                raise Violation("tile-missing", f"{what}: tile {p} with defined leaf data beneath it does not exist")
+                            continue
+                        with fits.open(path) as hl:
+                            hdr = hl[0].header
+                            data = np.array(hl[0].data)
+                        if tr is None:
+                            raise Violation("tile-unexpected", f"{what}: tile {p} exists without any defined leaf data beneath it")
+                        for key, exp in (("DATAMIN", tr[0]), ("DATAMAX", tr[1])):
+                            if key not in hdr:
+                                raise Violation("range", f"{what}: tile {p} has no {key}")
+                            got = float(hdr[key])
+                            if not abs(got - exp) <= 1.2e-7 * max(abs(exp), abs(got)) + 1e-30:
+                                pix = (float(np.nanmin(data)), float(np.nanmax(data)))
+                                raise Violation(
+                                    "range",
+                                    f"{what}: tile {p} records {key} = {got!r}; the leaves beneath it have {'min' if key == 'DATAMIN' else 'max'} {exp!r} (the tile's own pixels span {pix})",
+                                )
+                        checked += 1
+                        if n == 0:
+                            root_hdr = (float(hdr["DATAMIN"]), float(hdr["DATAMAX"]), float(np.nanmin(data)), float(np.nanmax(data)))
+            if root_hdr is None:
+                raise Violation("tile-missing", f"{what}: no root tile")
+            # WTML
+            tree = ET.parse(os.path.join(d, "index_rel.wtml"))
+            isets = [e for e in tree.iter() if e.tag == "ImageSet"]
+            if len(isets) != 1:
+                raise Violation("wtml", f"{what}: {len(isets)} ImageSet elements in index_rel.wtml")
+            for key, exp, attr in (("DataMin", root_hdr[0], "data_min"), ("DataMax", root_hdr[1], "data_max")):
+                v = isets[0].attrib.get(key, "0")  # the WTML format omits zero-valued attributes; absent means 0
+                if not abs(float(v) - exp) <= 1.2e-7 * max(abs(exp), 1e-30) + 1e-30:
+                    raise Violation("wtml-range", f"{what}: index_rel.wtml has {key}={v!r}, the root tile records {exp!r} (true range {true_range((0, 0, 0))})")
+                bv = getattr(bld.imgset, attr)
+                if bv is None or not abs(float(bv) - exp) <= 1.2e-7 * max(abs(exp), 1e-30) + 1e-30:
+                    raise Violation("wtml-range", f"{what}: Builder.imgset.{attr} = {bv!r}, the root tile records {exp!r}")
     ranges = set(true_range(p) for p in leaves)
     inside = root_hdr[2] > root_hdr[0] and root_hdr[3] < root_hdr[1]
     cls = [case["mode"], f"depth{depth}", f"k{k}"]
     if any(s.get("via") == "update2" for s in case["leaves"]):
         cls.append("leaf-painted-in-two-updates")
+    if revised is not None:
+        cls.append("cascaded-again-after-a-leaf-was-revised")
     if root_hdr[0] == 0.0 or root_hdr[1] == 0.0:
         cls.append("extremum-exactly-zero")
     if len(leaves) < 4**depth:
@@ -229,8 +257,12 @@ def strat_tile_fits_toast(draw, tier):
 FITS_MODES = ["F32", "F32", "F64", "F64", "U8", "I16", "I32"]
 
 
-def strat(tier):
-    return cc.cascade_cases(tier, formats=["fits"], want_range=True, modes=FITS_MODES, depth0=True)
+@st.composite
+def strat(draw, tier):
+    case = draw(cc.cascade_cases(tier, formats=["fits"], want_range=True, modes=FITS_MODES, depth0=True))
+    if draw(st.integers(0, 3)) == 0:
+        case["revise"] = draw(st.integers(1, 50))
+    return case
 
 
 @st.composite
